@@ -31,8 +31,28 @@ enum Attempt {
 }
 
 fn attempt(bytes: &[u8], idx: usize, pw: Option<&[u8]>, bufsize: usize, by_name: Option<&str>) -> Attempt {
+    attempt_on(Cursor::new(bytes), idx, pw, bufsize, by_name)
+}
+
+/// The same over an instrumented stream: `chunk` > 0 limits every underlying read; `interrupt_at` makes that
+/// I/O call return ErrorKind::Interrupted once (the caller retries, as std's read_to_end does). Returns the I/O call count too.
+fn attempt_io(bytes: &[u8], idx: usize, pw: Option<&[u8]>, bufsize: usize, chunk: usize, interrupt_at: Option<u64>) -> (Attempt, u64) {
+    let p = crate::sio::inst::plan();
+    p.borrow_mut().record_kinds = false;
+    if chunk > 0 {
+        p.borrow_mut().chunk = Some(chunk);
+    }
+    if let Some(k) = interrupt_at {
+        p.borrow_mut().devs.insert(k, crate::sio::inst::Dev::Interrupted);
+    }
+    let a = attempt_on(crate::sio::inst::Inst::new(bytes.to_vec(), p.clone()), idx, pw, bufsize, None);
+    let n = p.borrow().calls;
+    (a, n)
+}
+
+fn attempt_on<R: Read + std::io::Seek>(reader: R, idx: usize, pw: Option<&[u8]>, bufsize: usize, by_name: Option<&str>) -> Attempt {
     let r = guard(|| {
-        let mut ar = match zip::ZipArchive::new(Cursor::new(bytes)) {
+        let mut ar = match zip::ZipArchive::new(reader) {
             Ok(a) => a,
             Err(e) => return Attempt::OtherOpenErr(e.to_string()),
         };
@@ -60,6 +80,7 @@ fn attempt(bytes: &[u8], idx: usize, pw: Option<&[u8]>, bufsize: usize, by_name:
             match f.read(&mut b) {
                 Ok(0) => return Attempt::Clean(out),
                 Ok(n) => out.extend_from_slice(&b[..n]),
+                Err(e) if e.kind() == std::io::ErrorKind::Interrupted => continue,
                 Err(_) => return Attempt::ReadErr,
             }
         }
@@ -83,6 +104,49 @@ fn check_entry(bytes: &[u8], idx: usize, name: &str, pw: &[u8], content: &[u8], 
                 format!("with the correct password (caller buffer {b}) the entry gives {}", match &other { Attempt::Clean(c) => format!("{} bytes that differ from the {} written", c.len(), content.len()), o => format!("{o:?}") }),
                 st,
             ),
+        }
+    }
+    // the same through an underlying stream that returns short reads
+    let mut calls_at_5 = 0;
+    for &(b, ch) in &[(0usize, 1usize), (7, 1), (4096, 3), (0, 5), (64, 13), (1, 4095)] {
+        if ch == 1 && bytes.len() > 8192 {
+            continue;
+        }
+        st.evals += 1;
+        let (a, n) = attempt_io(bytes, idx, Some(pw), b, ch, None);
+        if (b, ch) == (0, 5) {
+            calls_at_5 = n;
+        }
+        match a {
+            Attempt::Clean(c) if c == content => st.class("right-password:content(short underlying reads)"),
+            Attempt::Panic(p) => bad(&format!("panic/{}", panic_site(&p)), format!("panicked: {p}"), st),
+            other => bad(
+                "right-password-fails/short-underlying-reads",
+                format!("with the correct password (caller buffer {b}, underlying reads of at most {ch} bytes) the entry gives {}", match &other { Attempt::Clean(c) => format!("{} bytes that differ from the {} written", c.len(), content.len()), o => format!("{o:?}") }),
+                st,
+            ),
+        }
+    }
+    // a retryable ErrorKind::Interrupted at every I/O call index (caller retries): nothing may be lost or duplicated
+    if bytes.len() <= 2048 {
+        for ch in [0usize, 5] {
+            let n = if ch == 5 { calls_at_5 } else { attempt_io(bytes, idx, Some(pw), 0, 0, None).1 };
+            for k in 0..n {
+                for b in [0usize, 9] {
+                    st.evals += 1;
+                    match attempt_io(bytes, idx, Some(pw), b, ch, Some(k)).0 {
+                        Attempt::Clean(c) if c == content => st.class("right-password:content(EINTR retried)"),
+                        // an open that surfaces the EINTR instead of retrying is an error reported, not a wrong result
+                        Attempt::OtherOpenErr(_) => st.class("EINTR-surfaced-at-open"),
+                        Attempt::Panic(p) => bad(&format!("panic/{}", panic_site(&p)), format!("panicked: {p}"), st),
+                        other => bad(
+                            "right-password-fails/interrupted-read-retried",
+                            format!("underlying reads of at most {ch} bytes, I/O call {k} returns ErrorKind::Interrupted once and the caller (buffer {b}) retries: the entry gives {}", match &other { Attempt::Clean(c) => format!("{} bytes that differ from the {} written", c.len(), content.len()), o => format!("{o:?}") }),
+                            st,
+                        ),
+                    }
+                }
+            }
         }
     }
     st.evals += 1;
@@ -166,17 +230,19 @@ pub fn run(args: &Args) -> i32 {
     let collected: Mutex<Vec<(Vec<u8>, Value)>> = Mutex::new(vec![]);
 
     // writer side
-    let total = pws.len() * n_content * methods.len() * 3;
+    let variants: [(&str, bool, Option<u32>); 3] = [("secret", false, None), ("s\u{e9}cret-\u{fc}\u{2603}", false, Some(0o600)), ("dir/secret.large", true, None)];
+    let total = pws.len() * n_content * methods.len() * 3 * variants.len();
     let pws_r = &pws;
     let col = &collected;
     let s = par_for(total as u64, 2, |t, st| {
-        let t = t as usize;
+        let (ename, large, perm) = variants[t as usize % variants.len()];
+        let t = t as usize / variants.len();
         let pos = t % 3;
         let m = methods[(t / 3) % 4];
         let c = (t / 12) % n_content;
         let pw = &pws_r[t / (12 * n_content)];
         let content = content_class(c, seed);
-        let enc = FOpts { password: Some(pw.clone()), ..FOpts::m(m) };
+        let enc = FOpts { password: Some(pw.clone()), large, perm, ..FOpts::m(m) };
         let other = |n: &str| vec![Call::StartFile { name: n.into(), opts: FOpts::m(8) }, Call::Write(b"plain neighbour".to_vec())];
         let mut calls = vec![];
         let idx = match pos {
@@ -188,7 +254,7 @@ pub fn run(args: &Args) -> i32 {
             calls.extend(other("n1"));
             calls.extend(other("n2"));
         }
-        calls.push(Call::StartFile { name: "secret".into(), opts: enc });
+        calls.push(Call::StartFile { name: ename.into(), opts: enc });
         calls.push(Call::Write(content.clone()));
         if pos == 1 {
             calls.extend(other("n1"));
@@ -196,10 +262,10 @@ pub fn run(args: &Args) -> i32 {
         }
         calls.push(Call::Finish);
         let (res, bytes) = exec(&calls, &[]);
-        let what = format!("writer:m{m}/content-class-{c}/password-{}B/position-{pos}", pw.len());
+        let what = format!("writer:m{m}/content-class-{c}/password-{}B/position-{pos}/name-{}{}", pw.len(), if ename.is_ascii() { "ascii" } else { "non-ascii" }, if large { "/large_file" } else { "" });
         let b2 = bytes.clone();
         let (pw2, c2) = (pw.clone(), content.clone());
-        let case = move || json!({"archive": if b2.len() <= 8192 { hex(&b2) } else { String::new() }, "password": hex(&pw2), "idx": idx, "name": "secret", "content": if c2.len() <= 4096 { hex(&c2) } else { String::new() }, "what": format!("m{m} class {c} pos {pos}")});
+        let case = move || json!({"archive": if b2.len() <= 8192 { hex(&b2) } else { String::new() }, "password": hex(&pw2), "idx": idx, "name": ename, "content": if c2.len() <= 4096 { hex(&c2) } else { String::new() }, "what": format!("m{m} class {c} pos {pos}")});
         let order = t as u64;
         if let Some((cl, r)) = calls.iter().zip(&res).find(|(_, r)| !r.is_ok()) {
             st.viol(format!("writer/call-failed/{}", cl.opname()), format!("{what}: {} gave {}", cl.opname(), r.show()), case(), order);
@@ -234,7 +300,7 @@ pub fn run(args: &Args) -> i32 {
         if m == 0 && content.len() >= 17 && bytes.windows(content.len().min(32)).any(|w| w == &content[..content.len().min(32)]) {
             st.viol("writer/plaintext-visible", format!("{what}: the plaintext occurs in the archive"), case(), order);
         }
-        check_entry(&bytes, idx, "secret", pw, &content, &what, st, &case, order);
+        check_entry(&bytes, idx, ename, pw, &content, &what, st, &case, order);
         // a few wrong passwords right away
         for w in [&b"wrong"[..], &b""[..], &b"P"[..]] {
             if w != &pw[..] {
